@@ -10,6 +10,8 @@ group raised when nothing failed, only an enclosing scope's cancellation may pas
 
 from __future__ import annotations
 
+import itertools
+
 from .. import treecheck, treefam
 
 PROPERTY = "C02"
@@ -32,7 +34,7 @@ SHARD_TIMEOUT = {"quick": 300, "thorough": 1500}
 
 
 def all_cases(tier: str, seed: int):  # noqa: ANN201
-    yield from treecheck.cases("c02", tier, seed, 4000, 60000, extra=treefam.failure_then_shield)
+    yield from treecheck.cases("c02", tier, seed, 4000, 60000, extra=lambda: itertools.chain(treefam.failure_then_shield(), treefam.shielded_group_failure()))
 
 
 def shards(tier: str, seed: int) -> list[dict]:
